@@ -63,7 +63,7 @@ func runBad(c *Ctx, prop string) {
 	n := c.N(220, 12000)
 	layouts := allLayouts
 	if prop == "C18" {
-		layouts = []layoutKind{layOneFile, layPerDef, layPartition, layGoRaw, layGoRawNL, layGoNested, laySameBase, layOutside, layCRLF, layCR, layMixedEnds, layGoOneLit}
+		layouts = []layoutKind{layOneFile, layPerDef, layPartition, layGoRaw, layGoRawNL, layGoNested, laySameBase, layOutside, layCRLF, layCR, layMixedEnds, layGoOneLit, layGoConcat, layGoRawBlank}
 	}
 	// after the cross of fault classes and layouts: the faults the CONVERTER reports (after earlier definitions of the
 	// same source were converted), with every definition in one Go literal
